@@ -973,6 +973,9 @@ func (ex *Exec) binop(fr *frame, op token.Token, xt types.Type, x, y Value, in *
 		if ex.Decide(Eq(b, IntC(0))) {
 			ex.goPanic(fr.fn.String(), "runtime error: integer divide by zero")
 		}
+		if op == token.REM && b.IsConst() && b.I.Sign() > 0 && a.lo != nil && a.lo.Sign() >= 0 {
+			return ModE(a, b) // non-negative dividend: truncated and Euclidean remainder agree; keeps the range [0, b)
+		}
 		q := truncDiv(a, b)
 		if op == token.QUO {
 			return WrapInt(q, bits, signed)
